@@ -70,6 +70,14 @@ def gen_cases(seed, tier):
         if dom["k"] > 1 and mode == "dens":
             mode = "big"
         add("prim", dom, target=str(rng.choice(["interior", "boundary"])), mode=mode, nsmall=int(rng.choice([1, 2, 10])))
+    for i in range(2 if quick else 30):
+        # (constant) polygon boundaries sampled for several parameter rows: every row's block covers the whole boundary
+        ctx_ = gen_geo.Ctx(rng, False, 0, None, 2)
+        sp_ = gen_geo.prim2d(ctx_, rng.uniform(-2, 2, 2), float(rng.uniform(0.5, 1.5)), kinds=("polygon",))
+        kk_ = int(rng.choice([2, 3]))
+        dom = {"spec": sp_, "rows": gen_geo.param_rows(rng, kk_), "k": kk_,
+               "info": {"kind": "prim", "dim": 2, "dep": False, "relations": ["rows"], "desc": "G"}}
+        add("prim", dom, target="boundary", mode="big", nsmall=10)
     for i in range(4 if quick else 60):
         # parallelograms / triangles whose side ratio differs between the parameter rows (only one corner moves):
         # the split of the boundary points over the sides is a per-row quantity
@@ -104,6 +112,8 @@ def gen_cases(seed, tier):
                 kdom = min(kdom, 1)
             dom = gen_geo.gen_domain(rng, max_depth=int(rng.integers(1, 3 if quick else 4)), k=kdom,
                                      allow=allow, dim=2 if (i < len(forced) and forced[i][0] in ("rotate", "translate", "product")) else None)
+            if i < len(forced) and forced[i][2] == "small" and forced[i][3] == 1 and "polyhedron" in geo.spec_ops(dom["spec"]):
+                continue            # add() turns single-point call series on polyhedra into n=10 calls
             if not (i < len(forced) and forced[i][4] and dom["spec"].get("op") not in forced[i][4]):
                 break
         mode = str(rng.choice(["big", "big", "small", "dens"]))
